@@ -51,6 +51,21 @@ ExpectedPool(c) ==
 
 ExpectedErr(c) == c.pool = "updateerr" \/ (c.pool = "peererr-other" /\ Shortfall(c) > 0)
 
+(* pool.StaticPool: the agent pointed at a fixed list of enodes instead of a pool (`vipnode agent enode://...`).   *)
+(* Every keep-alive is answered with the whole list as active peers and nothing invalid, whatever the agent     *)
+(* reports; a peer request returns the whole list, whatever number or kind was asked for.  A round against it   *)
+(* is therefore the round of the reconcile table whose pool reply is that list.                                 *)
+StaticUpdateF(static) == [active |-> [i \in Slots |-> IF static[i] THEN "A" ELSE "absent"], invalid |-> [i \in Slots |-> "no"]]
+StaticCase(s) == [strict |-> s.strict, kind |-> "geth-light", local |-> s.local, active |-> StaticUpdateF(s.static).active,
+                  invalid |-> StaticUpdateF(s.static).invalid, target |-> s.target, pool |-> "ok"]
+StaticPeerF(static) == {"connect:enode://" \o PeerName(i) \o "@10.0.0." \o ToString(i) \o ":30303" : i \in {j \in Slots : static[j]}}
+StaticExpectedNode(s) ==
+    LET c == StaticCase(s) IN
+    UNION {{"untrust:" \o PeerName(i), "disconnect:" \o PeerName(i)} : i \in {j \in Slots : Dropped(c, j)}}
+    \cup (IF Shortfall(c) > 0 THEN StaticPeerF(s.static) ELSE {})
+StaticExpectedPool(s) == ExpectedPool(StaticCase(s))
+StaticCases == [strict : BOOLEAN, static : [Slots -> BOOLEAN], local : [Slots -> Locals]]
+
 \* the part of the table the driver runs completely (one node kind), the rest is sampled
 FullCases == [strict : BOOLEAN, kind : {"geth-light"}, local : [Slots -> Locals], active : [Slots -> Actives], invalid : [Slots -> Invalids]]
 
